@@ -8,6 +8,7 @@ import (
 	"io"
 	"strings"
 	"time"
+	"unicode/utf8"
 
 	"github.com/google/uuid"
 	protospdx "github.com/protobom/protobom/pkg/formats/spdx"
@@ -143,7 +144,32 @@ func normalizeJSON(r io.Reader) (io.Reader, error) {
 	if err := encoder.Encode(data); err != nil {
 		return nil, err
 	}
-	return &buf, nil
+	return bytes.NewReader(unescapeLineSeparators(buf.Bytes())), nil
+}
+
+// unescapeLineSeparators writes U+2028 and U+2029 verbatim: encoding/json
+// escapes them even when HTML escaping is off, but JSON strings may carry
+// them as they are. Every backslash in the encoder's output starts an escape
+// sequence, so the sequences are consumed one by one.
+func unescapeLineSeparators(in []byte) []byte {
+	if !bytes.Contains(in, []byte(`\u202`)) {
+		return in
+	}
+	out := make([]byte, 0, len(in))
+	for i := 0; i < len(in); i++ {
+		if in[i] != '\\' || i+1 >= len(in) {
+			out = append(out, in[i])
+			continue
+		}
+		if esc := in[i:]; len(esc) >= 6 && (string(esc[:6]) == `\u2028` || string(esc[:6]) == `\u2029`) {
+			out = utf8.AppendRune(out, rune(0x2028+int(esc[5]-'8')))
+			i += 5
+			continue
+		}
+		out = append(out, in[i], in[i+1])
+		i++
+	}
+	return out
 }
 
 // packageToNode assigns the data from an SPDX package into a new Node
